@@ -1,10 +1,11 @@
 #!/bin/bash
-# tools/seeded_matrix.sh [tier]  — run every kept seeded change against its property's check, record the outcome
+# tools/seeded_matrix.sh [tier] [id-regex]  — run every kept seeded change against its property's check, record the outcome
 # in seeded/<id>/meta.json ("detected_by") and print a table. /repo is restored after each one.
-TIER=${1:-quick}
+TIER=${1:-quick}; FILTER=${2:-}
 cd /verif
 for d in seeded/*/; do
   id=$(basename $d)
+  if [ -n "$FILTER" ] && ! echo "$id" | grep -qE "$FILTER"; then continue; fi
   prop=$(python3 -c "import json;print(json.load(open('$d/meta.json'))['property'])")
   cd /repo
   if ! git diff --quiet; then echo "repo dirty"; exit 2; fi
